@@ -116,3 +116,54 @@ func VX_C02_HandlerCallsBack(args []int) {
 	vxAssert(vxBlockedThreads() == 0, "[C02] no goroutine left blocked after connection loss")
 	vxCover("c02.callback")
 }
+
+func init() { vxRegister("VX_C03_TwoFrames", VX_C03_TwoFrames) }
+
+// VX_C03_TwoFrames: two CALL frames arrive back to back and are handled by
+// concurrent handler goroutines (all schedules with <= k pre-emptions): each
+// is handled once and answered once with its own sequence number and body.
+// args: preemptions, secondKind(0 CALL, 1 PUSH)
+func VX_C03_TwoFrames(args []int) {
+	p := vxNewPeer()
+	route := &vxRoute{name: "h"}
+	proute := &vxRoute{name: "h"}
+	vxRouteCall(p, route)
+	vxRoutePush(p, proute)
+	conn := newVxConn("srv:1", "cli:2")
+	b1, b2 := vxBytes("b1", 1), vxBytes("b2", 1)
+	conn.feed(vxFrame(TypeCall, 11, "/h", b1))
+	if args[1] == 0 {
+		conn.feed(vxFrame(TypeCall, 12, "/h", b2))
+	} else {
+		conn.feed(vxFrame(TypePush, 12, "/h", b2))
+	}
+	vxSched(1, args[0])
+	_, st := p.ServeConn(conn)
+	vxAssume(st.OK())
+	vxWaitIdle()
+	vxSched(0, 0)
+	wantCalls, wantReplies := 2, 2
+	if args[1] == 1 {
+		wantCalls, wantReplies = 1, 1
+		vxAssert(proute.calls == 1, "the PUSH is handled once")
+	}
+	vxAssert(route.calls == wantCalls, "each CALL is handled exactly once")
+	vxAssert(conn.nWrites() == wantReplies, "each CALL is answered exactly once, the PUSH never")
+	seen := map[int32]int{}
+	for _, w := range conn.writes {
+		m, err := vxParse(w)
+		vxAssert(err == nil && m.Mtype() == TypeReply && m.StatusOK(), "every write is one whole OK REPLY")
+		if err != nil {
+			continue
+		}
+		seen[m.Seq()]++
+		rb := vxBodyOf(m)
+		if m.Seq() == 11 {
+			vxAssert(len(rb) == 1 && rb[0] == b1[0], "[C01] reply 11 carries the result computed from call 11's own argument")
+		} else {
+			vxAssert(m.Seq() == 12 && len(rb) == 1 && rb[0] == b2[0], "[C01] reply 12 carries the result computed from call 12's own argument")
+		}
+	}
+	vxAssert(seen[11] == 1 && (seen[12] == 1 || args[1] == 1), "one REPLY per CALL sequence number")
+	vxCover("c03.twoframes")
+}
